@@ -81,9 +81,63 @@ Fixpoint map_string (f : ascii -> ascii) (s : string) : string :=
 Fixpoint suffixb (suf s : string) : bool :=
   if String.eqb suf s then true else match s with EmptyString => false | String _ s' => suffixb suf s' end.
 
+(* strings.Index / LastIndex / Count / ReplaceAll / TrimSpace / Repeat on byte strings (the domain is ASCII) *)
+Fixpoint drop_str (n : nat) (s : string) : string :=
+  match n, s with O, _ => s | S n', String _ s' => drop_str n' s' | S _, EmptyString => EmptyString end.
+Fixpoint index_from (x s : string) (i : Z) : Z :=
+  if prefixb x s then i else match s with EmptyString => -1 | String _ s' => index_from x s' (i + 1) end.
+Fixpoint last_index_from (x s : string) (i best : Z) : Z :=
+  let best' := if prefixb x s then i else best in
+  match s with EmptyString => best' | String _ s' => last_index_from x s' (i + 1) best' end.
+(* non-overlapping occurrences of a non-empty x, left to right; fuel = S (length s) is enough *)
+Fixpoint count_fuel (fuel : nat) (x s : string) : Z :=
+  match fuel with
+  | O => 0
+  | S f => if prefixb x s then 1 + count_fuel f x (drop_str (String.length x) s)
+           else match s with EmptyString => 0 | String _ s' => count_fuel f x s' end
+  end.
+Definition str_count (s x : string) : Z :=
+  match x with EmptyString => strlenZ s + 1 | _ => count_fuel (S (String.length s)) x s end.
+Fixpoint replace_fuel (fuel : nat) (old new s : string) : string :=
+  match fuel with
+  | O => s
+  | S f => if prefixb old s then (new ++ replace_fuel f old new (drop_str (String.length old) s))%string
+           else match s with EmptyString => EmptyString | String c s' => String c (replace_fuel f old new s') end
+  end.
+Fixpoint intersperse (new s : string) : string :=
+  match s with EmptyString => new | String c s' => (new ++ String c (intersperse new s'))%string end.
+Definition str_replace (s old new : string) : string :=
+  match old with EmptyString => intersperse new s | _ => replace_fuel (S (String.length s)) old new s end.
+Definition is_space (c : ascii) : bool :=
+  let n := nat_of_ascii c in (Nat.leb 9 n && Nat.leb n 13 || Nat.eqb n 32)%bool.
+Fixpoint trim_left (s : string) : string :=
+  match s with String c s' => if is_space c then trim_left s' else s | EmptyString => s end.
+Fixpoint rev_str (s acc : string) : string :=
+  match s with EmptyString => acc | String c s' => rev_str s' (String c acc) end.
+Definition trim_space (s : string) : string := rev_str (trim_left (rev_str (trim_left s) EmptyString)) EmptyString.
+Fixpoint repeat_str (n : nat) (s : string) : string :=
+  match n with O => EmptyString | S n' => (s ++ repeat_str n' s)%string end.
+
+(* StrIn scans its arguments in order: the first equal string answers true even when a later argument is no string *)
+Fixpoint str_in (s : string) (l : list val) : res val :=
+  match l with
+  | [] => Ok (VBool false)
+  | VStr x :: t => if String.eqb x s then Ok (VBool true) else str_in s t
+  | _ :: _ => Err
+  end.
+
 (* constant functions on strings (model/DataAccessLayer.go) *)
 Definition string_func (s : string) (f : string) (args : list val) : res val :=
   match f, args with
+  | "Index"%string, [VStr x] => Ok (VInt Iw (index_from x s 0))
+  | "LastIndex"%string, [VStr x] => Ok (VInt Iw (last_index_from x s 0 (-1)))
+  | "Count"%string, [VStr x] => Ok (VInt Iw (str_count s x))
+  | "Replace"%string, [VStr o; VStr n] => Ok (VStr (str_replace s o n))
+  | "Trim"%string, [] => Ok (VStr (trim_space s))
+  | "Repeat"%string, [VInt _ n] | "Repeat"%string, [VUint _ n] =>
+      if n <? 0 then Panic                                  (* strings.Repeat: negative Repeat count *)
+      else if 4096 <? n * (strlenZ s + 1) then Err          (* outside the modelled range *)
+      else Ok (VStr (repeat_str (Z.to_nat n) s))
   | "Len"%string, [] => Ok (VInt Iw (strlenZ s))
   | "ToUpper"%string, [] => Ok (VStr (map_string upper_char s))
   | "ToLower"%string, [] => Ok (VStr (map_string lower_char s))
@@ -91,9 +145,7 @@ Definition string_func (s : string) (f : string) (args : list val) : res val :=
   | "HasPrefix"%string, [VStr x] => Ok (VBool (prefixb x s))
   | "HasSuffix"%string, [VStr x] => Ok (VBool (suffixb x s))
   | "Compare"%string, [VStr x] => Ok (VInt Iw (match String.compare s x with Eq => 0 | Lt => -1 | Gt => 1 end))
-  | "In"%string, l => if forallb (fun v => match v with VStr _ => true | _ => false end) l
-                      then Ok (VBool (existsb (fun v => match v with VStr x => String.eqb x s | _ => false end) l))
-                      else Err
+  | "In"%string, l => str_in s l
   | _, _ => Err
   end.
 
